@@ -1779,6 +1779,21 @@ fn replay_case(case_seed: u64, r: &mut Report) {
             return;
         }
     }
+    // with a separate state store nothing but the block's transactions touches it, so the root a
+    // replica holds after accepting a block must be the one recorded in that block (the root its
+    // producer had): otherwise producer and replica differ on the same blocks
+    if layout == 0 {
+        for i in 0..seq.len() {
+            if results[0][i].is_ok() && roots[0][i] != seq[i].0.header.state_root {
+                r.violation(
+                    "replay:replica-accepted-block-with-different-state-root",
+                    format!("entry {} ({}) accepted; block records state root {}, replica holds {}; outcomes {:?} [{}]", i, seq[i].1, short(&seq[i].0.header.state_root), short(&roots[0][i]), outcome_str(0), cfg_desc),
+                    replay,
+                );
+                return;
+            }
+        }
+    }
     // replicas agree with each other; do they agree with whoever derived the blocks? (Only the
     // well-formed blocks are judged: the statement says nothing about which malformed blocks a
     // replica has to refuse, so their acceptance is only counted.)
